@@ -71,6 +71,15 @@ def annotation_kinds(prog: Program, resolver: Resolver, fi: FuncInfo, ann: Optio
     return out
 
 
+def _destructures_factors(fi: FuncInfo) -> bool:
+    for st in ast.walk(fi.node):
+        if isinstance(st, ast.Assign) and len(st.targets) == 1 and isinstance(st.targets[0], (ast.Tuple, ast.List)) and len(st.targets[0].elts) == 1 \
+                and isinstance(st.targets[0].elts[0], (ast.Tuple, ast.List)) and isinstance(st.value, ast.Call) \
+                and isinstance(st.value.func, ast.Attribute) and st.value.func.attr == "items":
+            return True
+    return False
+
+
 def default_arg_sets(prog: Program, resolver: Resolver, qual: str, layer: str,
                      override: Optional[Dict[str, List[AV]]] = None) -> List[Dict[str, AV]]:
     """One abstract argument binding per combination of annotated alternatives."""
@@ -87,7 +96,14 @@ def default_arg_sets(prog: Program, resolver: Resolver, qual: str, layer: str,
                 choices.append([(x.arg, OpaqueV("cls"))])
                 continue
             v = value_for(fi.cls, x.arg, layer)
-            choices.append([(x.arg, v if v is not None else OpaqueV(fi.cls))])
+            alts_: List[Tuple[str, AV]] = [(x.arg, v if v is not None else OpaqueV(fi.cls))]
+            if fi.cls == "Unit" and isinstance(v, UnitV) and _destructures_factors(fi):
+                # the body takes `self` apart as base ** exponent: also run it on exactly such a unit
+                # (exponents 2 and -3: an identity that is linear in the exponent and holds for both holds for all)
+                for k_ in (2, -3):
+                    xe = Lin(k_)
+                    alts_.append((x.arg, UnitV(identity("P"), GroupV("F", ((f"F:{x.arg}_base", xe),)), GroupV("D", ((f"D:{x.arg}_base", xe),)))))
+            choices.append(alts_)
             continue
         kinds = annotation_kinds(prog, resolver, fi, x.annotation)
         vals = [(x.arg, value_for(k, x.arg, layer)) for k in kinds]
